@@ -735,6 +735,12 @@ pub fn execute(sc: &K18) -> Outcome {
     let mut map_after: Option<(u64, String, Vec<Row>)> = None;
     let mut table_after_seen = false;
 
+    // vacuity guards: a run in which no frame could be parsed at all, or in which the Airplanes /
+    // Stats / Map tabs were visited but never recognised, is a harness error, not a silent pass
+    if p.vt.frames.len() >= 40 && p.vt.frames.iter().all(|f| tab_bar_count(f).is_none()) {
+        simcore::harness_error("C18: no drawn frame shows a tab bar of the form 'Map .. Coverage .. Airplanes(N)': the screen parser does not recognise this UI");
+    }
+    let mut judged = (0u32, 0u32, 0u32);
     for s in &p.vt.frames {
         let Some(r) = snaps.get(&s.k) else { continue };
         if backlog_at_frame[&s.k] {
@@ -761,6 +767,7 @@ pub fn execute(sc: &K18) -> Outcome {
             None => continue,
         }
         if let Some((rows, _raw, selected)) = parse_airplanes_tab(s) {
+            judged.0 += 1;
             out.probe("airplanes_tab_judged");
             if selected {
                 out.probe("row_selected_shifted_columns");
@@ -787,6 +794,7 @@ pub fn execute(sc: &K18) -> Outcome {
                 table_after_seen = true;
             }
         } else if s.find("┌Stats").is_some() {
+            judged.1 += 1;
             out.probe("stats_tab_judged");
             // "<label> <DateTime | All Time | None> <value>"; the column widths are solved by
             // ratatui, so the row is parsed by content, not by offsets
@@ -817,6 +825,7 @@ pub fn execute(sc: &K18) -> Outcome {
                 return out;
             }
         } else if let Some(rect) = block_rect(s, "Map") {
+            judged.2 += 1;
             if view_is_default && !sc.many {
                 check_map(sc, s, rect, r, toggle_at_frame[&s.k], &mut out);
                 if out.violation.is_some() {
@@ -861,6 +870,10 @@ pub fn execute(sc: &K18) -> Outcome {
                 }
             }
         }
+    }
+    // phase B always ends with F3, F4, F1, each followed by at least 250 ms of frames
+    if sc.events_b.len() >= 7 && p.vt.frames.len() >= 40 && (judged.0 == 0 || judged.1 == 0 || judged.2 == 0) && sc.bulk == 0 {
+        simcore::harness_error(&format!("C18: the operator visited the Airplanes, Stats and Map tabs but the parsers recognised (airplanes, stats, map) = {judged:?} frames: the screen format is not the one this check understands"));
     }
     if let (Some((ka, a, ta)), Some((kb, b, tb))) = (&map_before, &map_after) {
         // only comparable when the data is the same (no aircraft expired in between)
